@@ -123,7 +123,7 @@ def main(tier):
     for i in (1, len(cases) // 3, len(cases) // 2, len(cases) - 1):
         rep.sample({"program": meta[i]["src"], "ok": omap[i]["ok"], "bytes": recs[i - 1]["bytes"]})
     rep.assumptions += ["values explored only inside +-2^30 (TLC integers are 32 bit) - narrower than the property's 64-bit domain",
-                        "truncating division; shifts and byte modifiers of negative values, division by zero, shift counts > 31 are outside the property (accepted either way)",
+                        "truncating division; shifts and byte modifiers of negative values, division by zero are outside the property; shift counts of any size are judged for non-negative operands (accepted either way)",
                         "petscii/petscreen only over the unambiguous ASCII subset (digits, punctuation, lower-case letters)"]
     for v in verdicts:
         cid = v["id"]
